@@ -88,7 +88,7 @@ Lemma cstep_inv s st o :
   end.
 Proof.
   destruct st as [run_max commits]. intros (Hrun & Hcom & Hopen).
-  destruct o as [b p commit | b | b | ]; cbn [cstep].
+  destruct o as [b p commit | b | b | b | ]; cbn [cstep].
   - destruct (is_open b s) eqn:Eo; [|repeat split; auto].
     pose proof (hlc_now_gt (p_high s) p) as Hgt.
     set (t := hlc_now (p_high s) p) in *.
@@ -136,6 +136,7 @@ Proof.
       specialize (Hopen b' H1). lia.
   - repeat split; auto.
     intros b' Ho. apply Hopen. unfold is_open in *; cbn in Ho. eapply is_open_filter; eauto.
+  - repeat split; auto.
   - eexists; split; [reflexivity|]. repeat split.
     + intros m Hm; discriminate.
     + intros b m Hl. apply (Hcom b m Hl).
